@@ -66,6 +66,11 @@ def b64offsetAt (T : Tables) (lenV : Nat) (v : List Byte) (i : Nat) : List Char 
 def b64offset (T : Tables) (lenV : Nat) (v : List Byte) : List (List Char) :=
   (List.range 3).map (b64offsetAt T lenV v)
 
+/-- the values of a detection item whose value is a *list* of payloads (`f|base64offset: [v1, v2, …]`):
+the modifier is applied to every element, the item matches when any of the values occurs -/
+def b64offsetList (T : Tables) (vs : List (List Byte)) : List (List Char) :=
+  vs.flatMap (fun v => b64offset T v.length v)
+
 /-- decidable soundness condition on the tables: pointwise at least as conservative as the minimal
 ones, and of the right length -/
 def Tables.sound (T : Tables) : Bool :=
